@@ -759,7 +759,7 @@ func zvRawHistory(run *core.Run, h int, rng *core.Rand, steps int) {
 		sort.Strings(want)
 		sort.Strings(got)
 		if strings.Join(got, ";") != strings.Join(want, ";") {
-			bad(o, "C12:roots:"+kind+":table-differs-from-model:"+zvClsTail(cls), fmt.Sprintf("root table %v, reference model %v", got, want))
+			bad(o, "C12:roots:"+kind+":table-differs-from-model", fmt.Sprintf("root table %v, reference model %v", got, want))
 			return
 		}
 		if len(m.rows) > 0 && tblIdx != m.lastIdx && tblIdx < m.lastIdx {
@@ -796,13 +796,6 @@ func zvRawHistory(run *core.Run, h int, rng *core.Rand, steps int) {
 	}
 }
 
-func zvClsTail(cls string) string {
-	if p := strings.SplitN(cls, ":", 2); len(p) == 2 {
-		return p[1]
-	}
-	return "other"
-}
-
 // ---------------------------------------------------------------------------------------------
 
 func TestZZVerifC12(t *testing.T) {
@@ -813,8 +806,9 @@ func TestZZVerifC12(t *testing.T) {
 		"the signing rate limiter is switched off (CSRMaxPerSecond=0): it is not part of the property",
 		"DNS / IP SANs of the CSR are copied to the certificate without any authorization: counted, not judged (the property speaks of URI and e-mail SANs)")
 	rng := core.NewRand(core.Seed())
-	if _, err := zvPool(); err != nil {
-		run.Inconclusive("cannot build the root pool: " + err.Error())
+	_, poolErr := zvPool()
+	if poolErr != nil {
+		run.Inconclusive("cannot build the root pool (a scratch CA history of 4 rotations failed): " + poolErr.Error())
 	}
 
 	// ---- Part 1
@@ -833,7 +827,8 @@ func TestZZVerifC12(t *testing.T) {
 	}
 	var wg sync.WaitGroup
 	next := make(chan int, nh)
-	for h := 0; h < nh; h++ {
+	zvSignHistory(run, 0, rngs[0], batches, per) // first and alone: its fixed cases give each finding class a minimal first witness
+	for h := 1; h < nh; h++ {
 		next <- h
 	}
 	close(next)
@@ -853,6 +848,9 @@ func TestZZVerifC12(t *testing.T) {
 
 	// ---- Part 2
 	nr := core.N(500, 20000)
+	if poolErr != nil {
+		nr = 0 // part 2 needs the pool; the floors then make the run inconclusive
+	}
 	rr := make([]*core.Rand, nr)
 	for h := range rr {
 		rr[h] = rng.Fork(uint64(5_000_000 + h))
